@@ -7,6 +7,7 @@ import Pypika.Build
 import Pypika.Guards
 import Pypika.DDL
 import Pypika.Replace
+import Pypika.Names
 /-!
 # JSON → model values (driver side only; no theorem depends on this file)
 -/
